@@ -28,7 +28,7 @@ def s_own(v):
     and sub/Manifest with DIST, IGNORE, EBUILD c (symbolic file), AUX files/x"""
     c = Ctx()
     fs = c.fs = ModelFS(written_sizes=[v.size('w1'), v.size('w2')])
-    mode = v.choice('mode', 4)
+    mode = v.choice('mode', 5)
     (a_size, a_dig) = v.filetoken('a_size', 'a_dig')
     (m_size, m_dig) = v.filetoken('m_size', 'm_dig')
     (c_size, c_dig) = v.filetoken('c_size', 'c_dig')
@@ -58,12 +58,16 @@ def s_own(v):
            mk('DIST', 'd1.tar', 9, MD5=md5('1')), mk('IGNORE', 'ig'),
            mk('IGNORE', 'gone'), mk('IGNORE', 'sub/gone2'),
            mk('DATA', 'a', 2, MD5=md5('A')),
+           # a compatible duplicate with a disjoint hash set (legal; lookups merge them)
+           mk('DATA', 'a', 2, SHA1=digest_for('SHA1', 'A')),
            mk('MISC', 'oth/m', 3, MD5=md5('M')), mk('EBUILD', 'oth/e', 2, MD5=md5('e')),
            mk('DATA', 'subx/k', 1, MD5=md5('k')), mk('DATA', 'sub.conf', 1, MD5=md5('j')),
            mk('MANIFEST', 'sub/Manifest', 6, MD5=md5('S'))]
     fs.add_manifest('Manifest', top)
     c.mode = mode                       # 0 verify+lookups, 1 update w/o save, 2 update+save,
     #                                     3 update hit by an I/O error, then discarded
+    #                                     4 verify + lookups, then update of sub + save on
+    #                                       the same loader
     c.fault_at = v.int('fault_at', 0, 70)
     c.xdev = v.bool('sub_other_dev')
     c.upath = ('', 'sub')[v.choice('up', 2)]
@@ -102,9 +106,9 @@ def run_ops(c):
                                         allow_xdev=not (c.mode == 3 and c.xdev))
             if c.mode == 3 and not c.xdev:
                 c.fs.fault_at = c.fs.ncalls + c.fault_at
-            if c.mode == 0:
+            if c.mode in (0, 4):
                 try:
-                    m.assert_directory_verifies(c.upath)
+                    m.assert_directory_verifies('' if c.mode == 4 else c.upath)
                 except GematoException:
                     pass
                 m.find_path_entry('sub/c')
@@ -115,6 +119,12 @@ def run_ops(c):
                     pass
                 m.verify_path('oth/m')
                 m.find_timestamp()
+                if c.mode == 4:
+                    c.upath = 'sub'
+                    m.update_entries_for_directory('sub')
+                    c.log_before_save = [*c.fs.log]
+                    m.save_manifests(force=c.force)
+                    out = 'saved'
             else:
                 m.update_entries_for_directory(c.upath)
                 c.fs.fault_at = None
@@ -216,15 +226,17 @@ def judge_ops(c, out):
 
 def conditions(tier):
     cs = []
-    parts = [('mode', range(4)), ('up', range(2)), ('c_kind', range(3)),
+    parts = [('mode', range(5)), ('up', range(2)), ('c_kind', range(3)),
              ('force', (False, True))]
     for fx in partitions(parts):
-        if fx['mode'] != 2 and fx['force']:
+        if fx['mode'] not in (2, 4) and fx['force']:
+            continue
+        if fx['mode'] == 4 and fx['up'] == 0:
             continue
         nm = 'own_' + '_'.join(f'{k.replace("_", "")[:4]}{int(x)}' for k, x in fx.items())
         cs.append(make_cond(
             nm, s_own, run_ops, judge_ops, fx, timeout=400, group='M-own', real=False,
-            twin=(fx['mode'] == 2 and fx['c_kind'] == 1),
+            twin=(fx['mode'] in (2, 4) and fx['c_kind'] == 1),
             descr='sequence of loader operations on the model with a write log: (0) verify '
                   '+ lookups, (1) update without save, (2) update + save, (3) update hit by an '
                   'OSError at a symbolic call position or by a device boundary, then '
@@ -235,6 +247,9 @@ def conditions(tier):
                    '"" or "sub"; force symbolic'))
     return cs
 
+
+# validate() compares the real implementation with the property itself
+VALIDATION_CHECKS_PROPERTY = True
 
 ASSUMPTIONS = [
     'the only ways to mutate the model are the seams gemato uses for writing '
